@@ -392,7 +392,7 @@ public:
                        const constant_domain_t &inv) override {
     crab::CrabStats::count(domain_name() + ".count.backward_assign");
     crab::ScopedCrabStats __st__(domain_name() + ".backward_assign");
-    // TODO
+    BackwardAssignOps<constant_domain_t>::assign(*this, x, e, inv);
   }
 
   void backward_apply(crab::domains::arith_operation_t op, const variable_t &x,
@@ -400,7 +400,7 @@ public:
                       const constant_domain_t &inv) override {
     crab::CrabStats::count(domain_name() + ".count.backward_apply");
     crab::ScopedCrabStats __st__(domain_name() + ".backward_apply");
-    // TODO
+    BackwardAssignOps<constant_domain_t>::apply(*this, op, x, y, z, inv);
   }
 
   void backward_apply(crab::domains::arith_operation_t op, const variable_t &x,
@@ -408,7 +408,7 @@ public:
                       const constant_domain_t &inv) override {
     crab::CrabStats::count(domain_name() + ".count.backward_apply");
     crab::ScopedCrabStats __st__(domain_name() + ".backward_apply");
-    // TODO
+    BackwardAssignOps<constant_domain_t>::apply(*this, op, x, y, z, inv);
   }
 
   // cast operations
